@@ -425,6 +425,7 @@ pub fn run(tier: Tier) -> i32 {
         eprintln!("MACHINERY: vacuous search ({} states)", st.states);
         return 2;
     }
+    super::cq::c07_into(&mut rep);
     rep.finish()
 }
 
